@@ -276,10 +276,12 @@ U('C17', 'c17.mul_zero', 'lem_c17_mul_zero', 'pre_c17_small', None, lemma=True, 
 U('C17', 'c17.div_one', 'lem_c17_div_one', 'pre_c17_small', None, lemma=True, cxx='lem_c17_div_one($1)', replace=[I2F_L, K_SHL], **INTQ)
 U('C17', 'c17.div_self', 'lem_c17_div_self', 'pre_c17_small', None, lemma=True, cxx='lem_c17_div_self($1)', replace=[I2F_L, K_SHL], **INTQ)
 U('C17', 'c17.add_sub', 'lem_c17_add_sub', 'pre_c01', None, lemma=True, cxx='lem_c17_add_sub($1,$2)')
+U('C17', 'c17.add_sub_seq', 'lem_c17_add_sub_seq', 'pre_c01', None, lemma=True, cxx='lem_c17_add_sub_seq($1,$2)')
 U('C17', 'c17.assoc', 'lem_c17_assoc', 'pre_c17_3', None, lemma=True, cxx='lem_c17_assoc($1,$2,$3)')
 for t, ct in ITYPES:
     U('C17', 'c17.mul_step.' + ct, 'lem_c17_mul_step_' + t, 'pre_muls_' + t, None, lemma=True, cxx='lem_c17_mul_step_%s($1,$2)' % t, **INTQ)
     U('C17', 'c17.mul_div.' + ct, 'lem_c17_mul_div_' + t, 'pre_muls_' + t, None, lemma=True, cxx='lem_c17_mul_div_%s($1,$2)' % t, **INTQ)
+    U('C17', 'c17.mul_div_seq.' + ct, 'lem_c17_mul_div_seq_' + t, 'pre_muls_' + t, None, lemma=True, cxx='lem_c17_mul_div_seq_%s($1,$2)' % t, **INTQ)
 U('C17', 'c17.add_mono', 'lem_c17_add_mono', 'pre_c17_3', None, lemma=True, cxx='lem_c17_add_mono($1,$2,$3)')
 
 # ----------------------------------------------------------------------------- C13
